@@ -57,6 +57,11 @@ func VarForm(v uint64, form int) ([]byte, bool) {
 	}
 }
 
+func mustForm(v uint64, form int) []byte {
+	b, _ := VarForm(v, form)
+	return b
+}
+
 func splice(b []byte, from, to int, with []byte) []byte {
 	out := make([]byte, 0, len(b)+len(with))
 	out = append(out, b[:from]...)
@@ -72,11 +77,27 @@ func Mutate(r *rand.Rand, seed []byte, nodes []*tlvwalk.Node) ([]byte, string) {
 		return b, "random"
 	}
 	n := nodes[r.Intn(len(nodes))]
-	switch r.Intn(13) {
+	switch r.Intn(14) {
+	case 13: // the element is replaced, size-preserving, by an unknown element whose 9-byte length
+		// is a small negative number when converted to a signed integer (2^64-k)
+		size := n.End - n.Off
+		if size < 10 {
+			m := append([]byte{}, seed...)
+			m[r.Intn(len(m))] ^= 1 << uint(r.Intn(8))
+			return m, "bitflip"
+		}
+		t := []byte{0xF0, 0x20, 0x7E, 0xFC, 0x21, 0x7F}[r.Intn(6)] // non-critical and critical unknown types
+		k := uint64([]int{10, size, 1 + r.Intn(size+12), 1 + r.Intn(64)}[r.Intn(4)])
+		el := append([]byte{t}, mustForm(^uint64(0)-k+1, 9)...)
+		pad := make([]byte, size-10)
+		r.Read(pad)
+		return splice(seed, n.Off, n.End, append(el, pad...)), "negative-length-unknown"
 	case 0, 1, 2: // length replaced by a boundary/huge value in some form
 		v := HugeLens[r.Intn(len(HugeLens))]
 		if r.Intn(3) == 0 {
 			v = uint64(int64(n.Len()) + int64(r.Intn(5)) - 2)
+		} else if r.Intn(4) == 0 {
+			v = ^uint64(0) - uint64(r.Intn(64)) // small negative numbers as signed integers
 		}
 		for tries := 0; tries < 8; tries++ {
 			if enc, ok := VarForm(v, []int{1, 3, 5, 9}[r.Intn(4)]); ok {
